@@ -209,7 +209,13 @@ func newStreamCodec(rwc io.ReadWriteCloser, f streamEncoding) *streamCodec {
 
 func (c *streamCodec) Encode(ctx context.Context, m *capnp.Message) error {
 	c.wc.setWriteContext(ctx)
-	return c.enc.Encode(m)
+	err := c.enc.Encode(m)
+	if err != nil && c.wc.wrote > 0 {
+		// Part of the frame reached the stream: the stream is broken.
+		// (The encoder wraps the writer's error, so its type is lost.)
+		return partialWriteError{err}
+	}
+	return err
 }
 
 func (c *streamCodec) Decode(ctx context.Context) (*capnp.Message, error) {
@@ -367,6 +373,7 @@ type ctxWriteCloser struct {
 	io.WriteCloser
 	ctx                 context.Context
 	partialWriteTimeout time.Duration
+	wrote               int // bytes accepted since setWriteContext
 }
 
 // Write bytes to a writer while making a best effort to
@@ -375,6 +382,7 @@ type ctxWriteCloser struct {
 // ignore the Done signal to avoid partial writes.
 func (wc *ctxWriteCloser) Write(b []byte) (int, error) {
 	n, err := wc.write(b)
+	wc.wrote += n
 	if n > 0 && n < len(b) {
 		err = partialWriteError{err}
 	}
@@ -382,7 +390,10 @@ func (wc *ctxWriteCloser) Write(b []byte) (int, error) {
 	return n, err
 }
 
-func (wc *ctxWriteCloser) setWriteContext(ctx context.Context) { wc.ctx = ctx }
+func (wc *ctxWriteCloser) setWriteContext(ctx context.Context) {
+	wc.ctx = ctx
+	wc.wrote = 0
+}
 
 func (wc *ctxWriteCloser) write(b []byte) (int, error) {
 	select {
